@@ -55,16 +55,16 @@ MUTANTS: dict[str, list[tuple[str, str, str, str, str | None]]] = {}
 _cfgc = I + "compiler/cfg_compiler.py"
 _core = I + "compiler/core.py"
 MUTANTS["C01"] = [
-    ("branch sum takes copyable instead of droppable", _cfgc,
-     "[v for v in sort_vars(row) if v.ty.droppable]", "[v for v in sort_vars(row) if v.ty.copyable]", "R-C01.6"),
+    ("branch sum takes copyable instead of non-linear", _cfgc,
+     "[v for v in sort_vars(row) if not v.ty.linear]", "[v for v in sort_vars(row) if v.ty.copyable]", "R-C01.6"),
     ("non-entry blocks declare their inputs in signature order", _cfgc,
      "inputs = sort_vars(bb.sig.input_row)", "inputs = list(bb.sig.input_row)", "R-C01.6"),
-    ("sort order puts non-droppable variables first", _cfgc,
-     "(not p1.ty.droppable, str(p1)) < (not p2.ty.droppable, str(p2))", "(p1.ty.droppable, str(p1)) < (p2.ty.droppable, str(p2))", "R-C01.6"),
+    ("sort order puts linear variables first", _cfgc,
+     "(p1.ty.linear, _name_key(p1)) < (p2.ty.linear, _name_key(p2))", "(not p1.ty.linear, _name_key(p1)) < (not p2.ty.linear, _name_key(p2))", "R-C01.6"),
     ("sort order ignores the name", _cfgc,
-     "(not p1.ty.droppable, str(p1)) < (not p2.ty.droppable, str(p2))", "(not p1.ty.droppable,) < (not p2.ty.droppable,)", "R-C01.6"),
+     "(p1.ty.linear, _name_key(p1)) < (p2.ty.linear, _name_key(p2))", "(p1.ty.linear,) < (p2.ty.linear,)", "R-C01.6"),
     ("regular outputs keep everything", _cfgc,
-     "outputs = [v for v in first if not v.ty.droppable]", "outputs = [v for v in first if True or not v.ty.droppable]", "R-C01.6"),
+     "outputs = [v for v in first if v.ty.linear]", "outputs = [v for v in first if True or v.ty.linear]", "R-C01.6"),
     ("outputs not sorted like successor inputs", _cfgc,
      "outputs = sort_vars(outputs)", "outputs = list(outputs)", "R-C01.6"),
     ("return vars appended instead of prepended for predecessors", _cfgc,
@@ -88,7 +88,7 @@ MUTANTS["C01"] = [
     ("drops inserted before the worklist is drained", _core,
      "            self.worklist[next_id] = None", "            self.worklist[next_id] = None", None),  # placeholder benign no-op, replaced below
     ("benign: comprehension variable renamed", _cfgc,
-     "outputs = [v for v in first if not v.ty.droppable]", "outputs = [w for w in first if not w.ty.droppable]", None),
+     "outputs = [v for v in first if v.ty.linear]", "outputs = [w for w in first if w.ty.linear]", None),
     ("benign: local renamed in __getitem__", _core,
      "child_wires = [self[child] for child in children]", "child_wires = [self[ch] for ch in children]", None),
 ]
